@@ -493,8 +493,12 @@ def piecewise_scale_posterior(
         midpt[i] = (alpha + 1) / beta
 
     # rescale quantiles
-    assert np.all(np.diff(rescaled_breaks) > 0), "Use fewer rescaling intervals"
-    assert np.all(np.diff(original_breaks) > 0), "Use fewer rescaling intervals"
+    if not (np.all(np.diff(rescaled_breaks) > 0) and np.all(np.diff(original_breaks) > 0)):
+        raise ValueError(
+            "Time rescaling failed because some rescaling intervals contain no "
+            "mutations: use fewer rescaling intervals (rescaling_intervals=0 "
+            "switches rescaling off)"
+        )
     scalings = np.append(np.diff(rescaled_breaks) / np.diff(original_breaks), 0)
 
     def rescale(x):
@@ -526,8 +530,12 @@ def piecewise_scale_point_estimate(
     original_breaks,
     rescaled_breaks,
 ):
-    assert np.all(np.diff(rescaled_breaks) > 0), "Use fewer rescaling intervals"
-    assert np.all(np.diff(original_breaks) > 0), "Use fewer rescaling intervals"
+    if not (np.all(np.diff(rescaled_breaks) > 0) and np.all(np.diff(original_breaks) > 0)):
+        raise ValueError(
+            "Time rescaling failed because some rescaling intervals contain no "
+            "mutations: use fewer rescaling intervals (rescaling_intervals=0 "
+            "switches rescaling off)"
+        )
     scalings = np.append(np.diff(rescaled_breaks) / np.diff(original_breaks), 0)
     idx = np.searchsorted(original_breaks, point_estimate, "right") - 1
     rescaled_estimate = rescaled_breaks[idx] + \
